@@ -285,16 +285,18 @@ def run(prop, tier, seed):
     max_edges = 3 if tier == 'quick' else 4
     prov_edges = 2 if tier == 'quick' else 3
     items = []
+    n4_edges = 2 if tier == 'quick' else 3
     for fl in flavours:
         items += list(scenarios(fl, n_nodes, max_edges))
+        items += [it for it in scenarios(fl, 4, n4_edges) if max([max(u, v) for u, v in it[1]['meta']['seq']] + [it[1]['meta']['u'], it[1]['meta']['v'] or 0]) == 3]
         if prop == 'C03':
             items += list(scenarios(fl, n_nodes, prov_edges, provenance=True))
     return scenario_check(
         prop, tier, seed, items, evaluate_ctx, sig_of,
-        bounds={'nodes': n_nodes, 'max_pre_state_edges': max_edges, 'operations_per_history_step': 1,
+        bounds={'nodes': n_nodes, 'max_pre_state_edges': max_edges, 'four_node_states_max_edges': n4_edges, 'operations_per_history_step': 1,
                 'flavours': list(flavours), 'handle_provenance_sweep_max_edges': prov_edges if prop == 'C03' else 0,
                 'symbolic': 'all edge values (z3 Int), one fresh value for the operation',
-                'outside': 'more than 3 nodes, more pre-state edges, dropped neighbours'},
+                'outside': 'more than 4 nodes, more pre-state edges, dropped neighbours'},
         assumptions=['std models of engine A (Rc/Arc/Weak, RefCell, RwLock single-thread semantics, Vec, slice iterators, Option/Result) as listed in std_models_used',
                      'rustc MIR (-Zunpretty=mir, overflow-checks on, debug-assertions off) is what gets compiled',
                      'keys are distinct concrete integers; behaviour is invariant under key relabelling (K: Eq+Hash+Clone+Display only)',
